@@ -161,7 +161,8 @@ def mapRangeOk (s : Paloma.Gen.Nondet.Site) : Bool :=
 
 /-- **nondeterminism_inventory_covered.** In the current source every `range` over a map is an
 order-insensitive shape or individually justified above; the only environment reads are the
-two justified ones; there is no wall-clock read; randomness occurs only in the listed test
+two justified ones; there is no wall-clock read and no use of the process-local time zone
+(`time.Unix`, `.Local()`, `time.LoadLocation` …); randomness occurs only in the listed test
 helpers; and the relayer assigner has a value receiver, so its per-call score cache cannot
 survive into another call. A new unsorted map range, environment read, `time.Now` or `rand`
 use on a consensus path makes this `decide` fail. -/
@@ -169,6 +170,7 @@ theorem nondeterminism_inventory_covered :
     (Paloma.Gen.Nondet.mapRanges.all mapRangeOk &&
      Paloma.Gen.Nondet.envReads.all (fun s => envJustified.any (fun j => j.1 == s.fn)) &&
      Paloma.Gen.Nondet.clockReads.isEmpty &&
+     Paloma.Gen.Nondet.localZoneUses.isEmpty &&
      Paloma.Gen.Nondet.randomUses.all (fun s => randJustified.contains s.fn) &&
      Paloma.Gen.Nondet.assignerReceiver == "value") = true := by decide
 
